@@ -1,6 +1,7 @@
 import TcheranVerif.Props.C03
 import TcheranVerif.Model.Rules
 import TcheranVerif.Proofs.LegalMoveFacts
+import TcheranVerif.Proofs.MakeTotal
 /-!
 # C02 — making and unmaking moves is exactly reversible; the three board views never disagree
 
@@ -20,8 +21,9 @@ import TcheranVerif.Proofs.LegalMoveFacts
   `Rules.apply` of the position before: placement (castling rook, pawn removed en passant, promoted piece),
   side to move, castling rights, en-passant target (engine convention: only with an enemy pawn beside the
   pushed pawn), halfmove clock and ply counter. `make_refines_legal` instantiates it for every legal move.
-Not proved: that `make_move` does answer (never panics) for every legal move; the `play` stream decides it
-on every sampled history.
+* `make_move_legal_total` — in every position meeting `PosH` (one king, e.p. target and rights consistent
+  with the placement, views in agreement) and for **every** legal move of the rules, `make_move` answers (no
+  `unwrap` on an empty square, no missing rook, no square off the board) with exactly `Rules.apply`.
 -/
 namespace Tcheran.Props.C02
 open Tcheran Board Game Tcheran.Props.C03
@@ -124,6 +126,12 @@ theorem make_refines_legal (c : Cfg) (g g' : Game) (mv : Move) (hc : g.board.Con
     Rules.ofGame g' = Rules.apply (Rules.ofGame g) mv :=
   Tcheran.make_refines_legal c g g' mv hc hl hr
 
+/-- `make_move` answers for every legal move, and with the rules' position -/
+theorem make_move_legal_total (c : Cfg) (g : Game) (k : Sq) (h : PosH g k) (mv : Move)
+    (hl : mv ∈ Rules.legalMoves (Rules.ofGame g)) :
+    ∃ g', makeMove c g mv = some g' ∧ Rules.ofGame g' = Rules.apply (Rules.ofGame g) mv :=
+  Tcheran.make_move_legal_total c g k h mv hl
+
 /-- non-vacuity: a quiet knight move from an (otherwise empty) consistent board satisfies `MoveOk` -/
 example : MoveOk (Game.fromState theCfg (Board.empty.setAt B1 ⟨.knight, .white⟩) .white Rights.none none 0 0)
     (Move.quiet B1 C3) := by
@@ -144,3 +152,4 @@ end Tcheran.Props.C02
 #print axioms Tcheran.Props.C02.make_mailbox
 #print axioms Tcheran.Props.C02.make_refines
 #print axioms Tcheran.Props.C02.make_refines_legal
+#print axioms Tcheran.Props.C02.make_move_legal_total
